@@ -103,7 +103,10 @@ func Authenticate(inner func(http.ResponseWriter, *http.Request), client meta.Me
 					return
 				}
 			default:
+				// only the user/password methods are supported here: report the error and stop,
+				// the wrapped handler must not run for a request that was just refused
 				httpd.HttpError(w, "unsupported authentication", http.StatusUnauthorized)
+				return
 			}
 
 		}
